@@ -94,3 +94,75 @@ pub async fn shutdown(db: &Database) -> Result<(), String> {
         Err(e) => Err(enc::panic_msg(e)),
     }
 }
+
+/// The column types the binder / type checker derives for a query (C16), as array variant names.
+pub fn static_types(db: &Database, sql: &str) -> Value {
+    use risinglight::storage::StorageImpl;
+    let catalog = match db.verif_storage() {
+        StorageImpl::InMemoryStorage(s) => s.catalog().clone(),
+        StorageImpl::SecondaryStorage(s) => s.catalog().clone(),
+    };
+    let r = std::panic::catch_unwind(std::panic::AssertUnwindSafe(|| {
+        let stmts = risinglight::parser::parse(sql).map_err(|e| e.to_string())?;
+        let stmt = stmts.into_iter().next().ok_or("empty")?;
+        let mut binder = risinglight::binder::Binder::new(catalog.clone());
+        let plan = binder.bind(stmt).map_err(|e| e.to_string())?;
+        let mut egraph = egg::EGraph::new(risinglight::planner::TypeSchemaAnalysis {
+            catalog: catalog.clone(),
+        });
+        let root = egraph.add_expr(&plan);
+        let ty = egraph[root].data.type_.clone().map_err(|e| format!("{e:?}"))?;
+        let names: Vec<String> = ty
+            .as_struct()
+            .iter()
+            .map(|t| {
+                let d = format!("{t:?}");
+                d.split('(').next().unwrap_or("").to_string()
+            })
+            .collect();
+        Ok::<_, String>(names)
+    }));
+    match r {
+        Ok(Ok(v)) => json!(v),
+        Ok(Err(e)) => json!({"err": e}),
+        Err(e) => json!({"err": enc::panic_msg(e), "panic": true}),
+    }
+}
+
+/// Bound and optimized plan of a statement as s-expressions (C17); `mock` = optional row counts.
+pub fn plans(db: &Database, sql: &str, disk_like: bool, mock: &[(String, u32)]) -> Value {
+    use risinglight::planner::{Config, Optimizer, Statistics};
+    use risinglight::storage::StorageImpl;
+    let catalog = match db.verif_storage() {
+        StorageImpl::InMemoryStorage(s) => s.catalog().clone(),
+        StorageImpl::SecondaryStorage(s) => s.catalog().clone(),
+    };
+    let r = std::panic::catch_unwind(std::panic::AssertUnwindSafe(|| {
+        let stmts = risinglight::parser::parse(sql).map_err(|e| e.to_string())?;
+        let stmt = stmts.into_iter().next().ok_or("empty")?;
+        let mut binder = risinglight::binder::Binder::new(catalog.clone());
+        let plan = binder.bind(stmt).map_err(|e| format!("bind error: {e}"))?;
+        let mut stat = Statistics::default();
+        for (t, n) in mock {
+            if let Some(id) = catalog.get_table_id_by_name("postgres", t) {
+                stat.add_row_count(id, *n);
+            }
+        }
+        let opt = Optimizer::new(
+            catalog.clone(),
+            stat,
+            Config {
+                enable_range_filter_scan: disk_like,
+                table_is_sorted_by_primary_key: disk_like,
+            },
+        );
+        let bound = plan.to_string();
+        let optimized = opt.optimize(plan).to_string();
+        Ok::<_, String>((bound, optimized))
+    }));
+    match r {
+        Ok(Ok((b, o))) => json!({"bound": b, "opt": o}),
+        Ok(Err(e)) => json!({"err": e}),
+        Err(e) => json!({"err": enc::panic_msg(e), "panic": true}),
+    }
+}
